@@ -49,6 +49,10 @@ func solverArgs(kind string, timeoutMS int) (string, []string) {
 		return "z3-new", []string{"-in", fmt.Sprintf("-t:%d", timeoutMS)}
 	case "cvc5":
 		return "cvc5", []string{"--incremental", "--lang=smt2", fmt.Sprintf("--tlimit-per=%d", timeoutMS), "--produce-models"}
+	case "cvc5-int":
+		// bit-vector arithmetic solved over the integers (keeps the mod-2^k semantics): decides the
+		// interval/offset arithmetic kernels that bit-blasting does not finish
+		return "cvc5", []string{"--incremental", "--lang=smt2", fmt.Sprintf("--tlimit-per=%d", timeoutMS), "--produce-models", "--solve-bv-as-int=sum"}
 	}
 	return "z3", []string{"-in", fmt.Sprintf("-t:%d", timeoutMS)}
 }
@@ -69,8 +73,8 @@ func NewSolver(kind string, timeoutMS int) (*Solver, error) {
 		return nil, err
 	}
 	s := &Solver{cmd: cmd, in: in, out: bufio.NewReaderSize(out, 1<<16), defined: map[string]int{}, declared: map[string]int{}, kind: kind, timeout: timeoutMS}
-	if kind == "cvc5" {
-		s.send("(set-logic QF_BV)\n")
+	if kind == "cvc5" || kind == "cvc5-int" {
+		s.send("(set-logic ALL)\n")
 	}
 	return s, nil
 }
